@@ -9,7 +9,8 @@ from ..registry import SPECS, Batch, fresh_cfg, public_cfg, new_metric
 from ..engine import observe, same_obs, obs_json, snapshot, snap_equal, try_update, gen_stream
 
 FAULTS = ["drop_dim", "add_dim", "shorter", "longer", "size1", "empty", "zerodim", "to_bool", "to_int", "to_f64", "to_f16",
-          "neg_label", "big_label", "nan", "inf", "none", "string", "pylist", "missing_arg", "extra_kwarg", "wider_all", "ndarray:0", "ndarray:1", "ndarray:2"]
+          "neg_label", "big_label", "nan", "inf", "none", "string", "pylist", "missing_arg", "extra_kwarg", "wider_all", "ndarray:0", "ndarray:1", "ndarray:2",
+          "to_complex:0", "to_complex:1", "to_complex:2", "huge"]
 
 
 def mutate_tensor(t: torch.Tensor, fault: str):
@@ -36,6 +37,9 @@ def mutate_tensor(t: torch.Tensor, fault: str):
         return t.to(torch.float64) if t.dtype != torch.float64 else None
     if fault == "to_f16":
         return t.to(torch.float16)
+    if fault == "huge":
+        # finite values whose products / sums overflow the working precision (inf only appears inside the computation)
+        return (t * 3e38).to(t.dtype) if t.is_floating_point() and t.numel() else None
     if fault in ("neg_label", "big_label"):
         if t.is_floating_point() or t.numel() == 0:
             return None
@@ -60,6 +64,21 @@ def mutate_tensor(t: torch.Tensor, fault: str):
 
 
 def faulty(b: Batch, fault: str, which: int):
+    if fault.startswith("to_complex:"):
+        # the k-th tensor argument (positional or keyword) in a complex dtype: no accumulator can absorb a complex statistic in
+        # place, so `state += stat` raises at the FIRST state fed by that argument — which must not come after another state
+        # was already advanced
+        which = int(fault.split(":")[1])
+        keys = [("a", i) for i, a in enumerate(b.args) if isinstance(a, torch.Tensor)] + [("k", k) for k, a in b.kwargs.items() if isinstance(a, torch.Tensor)]
+        if which >= len(keys):
+            return None
+        args, kwargs = list(b.args), dict(b.kwargs)
+        kind, key = keys[which]
+        if kind == "a":
+            args[key] = args[key].to(torch.complex64)
+        else:
+            kwargs[key] = kwargs[key].to(torch.complex64)
+        return Batch(tuple(args), kwargs)
     if fault.startswith("ndarray:"):
         # the k-th tensor argument (positional or keyword: weights included) as a numpy array
         which = int(fault.split(":")[1])
